@@ -14,7 +14,7 @@ func (e *Engine) VerifyFunc(key string) (ctx *FnCtx) {
 	ct := e.Specs.Contracts[key]
 	fn := e.Funcs[key]
 	ctx = &FnCtx{E: e, Fn: fn, C: ct, Key: key, decls: map[string]string{}, Notes: map[string]bool{},
-		strLits: map[string]Term{}, maxPaths: 4000, Callees: map[string]bool{}, implAx: map[string]bool{}, wordAx: map[string]bool{}}
+		strLits: map[string]Term{}, maxPaths: 4000, Callees: map[string]bool{}, implAx: map[string]bool{}, wordAx: map[string]bool{}, lamCache: map[string]Term{}}
 	if ct == nil {
 		ctx.Errs = append(ctx.Errs, "no contract for "+key)
 		return ctx
